@@ -54,10 +54,13 @@ def normalizedLruStems (puny : Str → Str) (parse : Str → Option Parsed) (pla
   | .inl _ => none
   | .inr t => some (stemsOfSplit splitSuffix sa t)
 
-/-- `fingerprinted_lru_stems(url, suffix_aware, strip_suffix=…)` (stems.py:125-127) -/
+/-- `fingerprinted_lru_stems(url, suffix_aware, strip_suffix=…)` (stems.py:125-127); `.ok none` =
+the URL is unparseable (`fingerprint_url` returned the string), as in `normalizedLruStems` -/
 def fingerprintedLruStems (E : Fingerprint.Env) (sa stripSfx : Bool) (url : Str) :
-    Except Fingerprint.Err (List Str) :=
-  (Fingerprint.fingerprintUrlSplit E stripSfx url).map (stemsOfSplit splitSuffix sa)
+    Except Fingerprint.Err (Option (List Str)) :=
+  (Fingerprint.fingerprintUrlSplit E stripSfx url).map fun
+    | .inl _ => none
+    | .inr t => some (stemsOfSplit splitSuffix sa t)
 
 end
 
